@@ -145,6 +145,11 @@ def plain_modules():
     items = [(t, T()) for t in ROWTYPES] + [("CO ::= CLASS { &id OBJECT IDENTIFIER UNIQUE, &Type } WITH SYNTAX { ID &id TYPE &Type }", T()),
              ("SO CO ::= { { ID {1 2 3} TYPE Count } | { ID {1 2 4} TYPE Flag } }", T()), good(0, "Ok0"), (ioc_seq("Keyed", "SO", "CO"), T(nmemb=2)), good(1, "Ok1")]
     out.append(module("FpOidIdentifier", items, refusal=None, position="fatal-returns-0"))
+    # an emitter failure INSIDE an EMBEDded component, after a REDIR(): the open type of a nested anonymous SEQUENCE that names a
+    # component of the outer one (valid: X.682 `@` starts at the outermost structure) - finding C10-component-emitter-failure-assert
+    items = [(t, T()) for t in ROWTYPES] + [(CLS, T())] + [(s_, T()) for s_ in SETS.split("\n")] + [
+        good(0, "Ok0"), ("Nest ::= SEQUENCE { id CLS.&id ({S1}), f SEQUENCE { v CLS.&Type ({S1}{@id}) } }", T(members=[T(), T(rid="selector-unknown-member", nmemb=1)])), good(1, "Ok1")]
+    out.append(module("FpNestedSelector", items, refusal="selector-unknown-member", position="component-after-redir"))
     # two modules in one file: the failing unit in the first / in the second module
     for pos in ("first", "second"):
         rid = "selector-unknown-member"
